@@ -76,11 +76,14 @@ def rotate(seq, seed):
     return seq[k:] + seq[:k]
 
 
-def in_domain(art, R, Z, margin=0.0):
-    """points inside the rectangle covered by the input psi array (outside it there is no
-    equilibrium data: the interpolants extrapolate and no property says anything there)"""
+def in_domain(art, R, Z, margin=None):
+    """points inside the rectangle covered by the input psi array, less a margin of two
+    input cells (outside it there is no equilibrium data: the interpolants extrapolate,
+    hypnotoad's fine contours stop at the edge, and no property says anything there)"""
     inp = art.inputs
     R1, Z1 = inp["R1D"], inp["Z1D"]
+    if margin is None:
+        margin = 2.0 * max(R1[1] - R1[0], Z1[1] - Z1[0])
     with np.errstate(invalid="ignore"):
         return ((R >= R1[0] + margin) & (R <= R1[-1] - margin) & (Z >= Z1[0] + margin)
                 & (Z <= Z1[-1] - margin))
